@@ -360,8 +360,8 @@ func (c *fnCtx) lookupTypeName(ci calleeInfo, name string) types.Type {
 }
 
 func (c *fnCtx) lookupTypeNameIn(pkgPath, name string) types.Type {
-	for path, sp := range c.g.spkgs {
-		if path == pkgPath || strings.HasSuffix(path, "/"+pkgPath) {
+	for _, sp := range c.g.findPkgs(pkgPath) {
+		{
 			if o := sp.Pkg.Scope().Lookup(name); o != nil {
 				if tn, ok := o.(*types.TypeName); ok {
 					return tn.Type()
